@@ -170,7 +170,7 @@ def accepted_kinds(root: Sp, s: Sp) -> set:
         return {"dict"}
     if k in ("lit", "enum"):
         return {jkind(v) for v in s.a}
-    if k in ("newtype", "ann", "undef"):
+    if k in ("newtype", "ann", "undef", "sub"):
         return accepted_kinds(root, s.a[0])
     raise ValueError(k)
 
@@ -184,7 +184,7 @@ class RefDeser:
 
     def json_class(self, s: Sp):
         """JSON class a union alternative is dispatched on, None if it has none"""
-        while s.k in ("ann", "newtype", "undef", "ref"):
+        while s.k in ("ann", "newtype", "undef", "ref", "sub"):
             s = self.defs[s.opt("name")] if s.k == "ref" else s.a[0]
         if s.k in ("int", "float", "str", "bool", "none"):
             return s.k
@@ -223,7 +223,7 @@ class RefDeser:
         return out
 
     def deref(self, s: Sp) -> Sp:
-        while s.k in ("ref", "ann", "newtype", "undef"):
+        while s.k in ("ref", "ann", "newtype", "undef", "sub"):
             s = self.defs[s.opt("name")] if s.k == "ref" else s.a[0]
         return s
 
@@ -239,6 +239,10 @@ class RefDeser:
             return self.de(s.a[0], d, loc, tuple(s.opt("schema") or ()) + cs, errs)
         if k == "undef":  # Undefined is never a deserialization alternative
             return self.de(s.a[0], d, loc, cs, errs)
+        if k == "sub":  # subclass of a primitive: the primitive, then the class
+            n0 = len(errs)
+            v = self.de(s.a[0], d, loc, cs, errs)
+            return self.prog.cls(s.opt("name"))(v) if len(errs) == n0 else None
         if k == "any":
             fam = {"int": "num", "float": "num", "str": "str", "list": "arr", "dict": "obj"}.get(kd)
             if fam:
